@@ -71,6 +71,9 @@ def gen_states(rng, n_steps, first, final):
     return states
 
 
+LOOKALIKE_NAMES = ["b", "b-docs", "ab", "b2"]
+
+
 def gen_chain(rng, root, n_steps=None, allow_gpg=False, fmt_mode="mixed", n_insp=None,
               thresholds=(1, 1, 1, 2), max_funcs=3, owners=None, first=None, final=None,
               exclude=(), prefix="s", depth=0, sub_prob=0.0):
@@ -89,11 +92,14 @@ def gen_chain(rng, root, n_steps=None, allow_gpg=False, fmt_mode="mixed", n_insp
     if first is None:
         first = {"src/a.c": b"int a;\n", "README": b"hi\n"}
     states = gen_states(rng, n_steps, first, final)
+    lookalike = rng.random() < 0.3
     for i in range(n_steps):
         nf = rng.randrange(1, max_funcs + 1)
         keys = rng.sample(funcs_pool, nf)
         thr = min(rng.choice(thresholds), nf)
-        name = "%s%d" % (prefix, i)
+        # sometimes step names that contain one another ("b", "b-docs", "ab"): a name comparison that is not an exact
+        # equality (prefix, substring, truncation) then confuses the steps
+        name = "%s%s" % (prefix, LOOKALIKE_NAMES[i % len(LOOKALIKE_NAMES)]) if lookalike else "%s%d" % (prefix, i)
         links = []
         for k in keys:
             sub = None
